@@ -58,6 +58,14 @@ CHECKS = {
              'of each element must equal that of a database freshly built from the final content.',
         note='The abstract model is edited by mirror functions; histories whose final content cannot be built (two tables with one full name) are skipped and counted. Histories are never merged by content.',
         design='DESIGN.md §3 C10'),
+    'C17': dict(
+        level='model_checking', technique='explicit-state BFS over attribute-removal / restoration / detachment histories with every rendering evaluated in every state; exhaustive reference product with a classifying reference model',
+        text='Histories over {unset a required attribute, restore it, detach / re-attach table and enum} are executed on real objects; in every state the .sql of every element and container must raise '
+             'AttributeMissingError exactly while something it renders lacks a named attribute. Every reference over two attached tables and an unattached column (sides 1-2, four kinds, inline or not, '
+             'attached or not) is classified consistent / detached / mixed / composite-inline and the predicted exception class is required for .sql, .dbml, .table1, .table2; histories that move or detach '
+             'a column after the reference was looked at, and attach/detach histories for get_refs, complete it.',
+        note='Only the attributes the statement names are asserted. Where detached and mixed coincide either error is accepted. A detached table\'s own .sql (UnknownDatabaseError, pinned by the tests) is not asserted.',
+        design='DESIGN.md §3 C17'),
     'C18': dict(
         level='exploration', technique='exhaustive enumeration of all labelled DAGs (n<=4/5) x edge kinds, SQL read back by independent DDL reader',
         text='Every labelled DAG of inline references on up to 4 (quick) / 5 (thorough) tables with every assignment of kinds >,<,- is built, '
